@@ -21,4 +21,32 @@ theorem tie_float_literals :
     (the model's `adjustCPUSet` tests the sum before `goDiv`; theorem `total_no_panic`). -/
 theorem tie_zero_pool_guard : KoordVerif.Generated.C10.zeroPoolGuardBeforeDivision = true ∧ KoordVerif.Generated.C10.poolSizeDivisions = 1 := by decide
 
+/-- which pods count (model: `poolOf` / `lseClaimed` look at `valid`, `qos`, `cpus` only — theorem `life_irrelevant`):
+    the pod loops of adjustByCPUSet / calcBECPUSet leave an iteration only through the three annotation guards
+    (+ the QoS guard in calcBECPUSet) and never read deletionTimestamp / phase. -/
+theorem tie_pod_loops :
+    KoordVerif.Generated.C10.adjustPodLoopExits = 3 ∧ KoordVerif.Generated.C10.adjustPodLoopReadsLifecycle = false ∧
+    KoordVerif.Generated.C10.recoverPodLoopExits = 4 ∧ KoordVerif.Generated.C10.recoverPodLoopReadsLifecycle = false := by decide
+
+/-- the budget uses NonBEPodFilter / NonBEHostAppFilter, whose bodies are the conjunction / disjunction the model's
+    `PodU.counted` / `AppU.counted` mirror (theorem `app_counted_iff`). -/
+theorem tie_budget_filters :
+    KoordVerif.Generated.C10.budgetPodFilter = "helpers.NonBEPodFilter" ∧
+    KoordVerif.Generated.C10.budgetHostAppFilter = "helpers.NonBEHostAppFilter" ∧
+    KoordVerif.Generated.C10.hostAppFilterDisjuncts =
+      ["hostAppSpec.CgroupPath.Base!=slov1alpha1.CgroupBaseTypeKubeBesteffort", "hostAppSpec.CgroupPath==nil", "hostAppSpec.QoS!=apiext.QoSBE"] ∧
+    KoordVerif.Generated.C10.podFilterConjuncts =
+      ["apiext.GetPodQoSClassRaw(pod)!=apiext.QoSBE", "util.GetKubeQosClass(pod)!=corev1.PodQOSBestEffort"] := by decide
+
+/-- adjustByCfsQuota: the 1 % bypass and the 10 % step both require a currently set quota (model `adjustQuota`,
+    theorems `quota_eq`, `quota_from_unset_written`; repair 4d853b2). -/
+theorem tie_quota_unset_guards :
+    KoordVerif.Generated.C10.quotaBypassExcludesUnset = true ∧ KoordVerif.Generated.C10.quotaStepExcludesUnset = true := by decide
+
+/-- applyBESuppressCPUSet: under the static kubelet policy the recover path runs BEFORE the container-level write;
+    any other policy writes every level (model `adjustFull`, theorem `static_levels`). -/
+theorem tie_policy_dispatch :
+    KoordVerif.Generated.C10.staticPolicyCalls = ["recoverCPUSetIfNeed", "applyCPUSetWithStaticPolicy"] ∧
+    KoordVerif.Generated.C10.otherPolicyCalls = ["applyCPUSetWithNonePolicy"] := by decide
+
 end KoordVerif.C10
